@@ -46,3 +46,14 @@ NOT_APPLICABLE = {
 for _p in ["C%02d" % i for i in range(1, 21)]:
     if _p not in PROPS and _p not in NOT_APPLICABLE:
         NOT_APPLICABLE[_p] = "check under construction (see DESIGN.md section 4); not claimed until its obligations run"
+
+P("C05", "model_checking", kani={"timeout": "900s"},
+  bounded="programs: depth profiles n<=3 (quick: d<=2 plus selected d=3; thorough: d<=3 plus n=4 samples), Option/Result sync and Result async; every (branch, step) failure flag and payload symbolic",
+  not_decided="spawn kinds (threads / tokio tasks): not executable by Kani")
+
+P("C06", "model_checking", kani={"timeout": "900s"},
+  bounded="same programs as C05; trace contract: exact event sequence of the staged reference (sync), no event of a step after the failing one (async)",
+  not_decided="spawn kinds (threads / tokio tasks)")
+P("C04", "model_checking", kani={"timeout": "900s"},
+  bounded="depth profiles n<=3 (+n=4 samples), d<=3; join!/try_join!/join_async!/try_join_async!, with then/map/and_then handlers and let patterns; values symbolic",
+  not_decided="spawn kinds; the filtering closures of extract_results_tuple are outside Verus (FnMut capture)")
